@@ -28,6 +28,7 @@ type step struct {
 	Panic   bool            `json:"panic"`
 	Blocked []string        `json:"blocked"`
 	Num     int             `json:"num"`
+	Manual  int             `json:"manual"`
 }
 
 type input struct {
@@ -127,9 +128,28 @@ func replay(in input) map[string]any {
 			c()
 		}
 	}()
+	deadManual := -1
 	for k, st := range in.Beh {
 		var addOp *rt.Op
+		heldBefore := w.g.Waiting("op")
 		switch st.Op {
+		case "launch-dead":
+			// the worker context is already cancelled: whatever is started must be accounted for, and nothing else
+			dead, dc := context.WithCancel(bg)
+			dc()
+			n := num(st.Arg)
+			switch {
+			case n == 1 && w.nlaunch%3 == 0:
+				w.wg.Launch(dead, gated)
+			case n == 1 && w.nlaunch%3 == 1:
+				gated.Add(dead, w.wg)
+			case w.nlaunch%2 == 0:
+				w.wg.DoTimes(dead, n, gated)
+			default:
+				gated.StartGroup(dead, w.wg, n)
+			}
+			w.nlaunch++
+			deadManual = st.Manual
 		case "wait":
 			id := str(st.Arg)
 			c := w.ctxOf(id)
@@ -210,6 +230,14 @@ func replay(in input) map[string]any {
 			return fail(in, k, key, fmt.Sprintf("blocked Wait calls at quiescence: got %v, spec %v", gotB, expB),
 				map[string]any{"got": gotB, "exp": expB})
 		}
+		if st.Op == "launch-dead" {
+			k2 := w.g.Waiting("op") - heldBefore
+			if n := w.wg.Num(); n != st.Num+k2 {
+				return fail(in, k, "waitgroup/launch-on-dead-context/counter", fmt.Sprintf(
+					"launch of %d operation(s) with a cancelled context: %d started, Num() went from %d to %d", num(st.Arg), k2, st.Num, n), nil)
+			}
+			continue
+		}
 		if n := w.wg.Num(); n != st.Num {
 			return fail(in, k, "waitgroup/counter", fmt.Sprintf("Num()=%d, spec %d", n, st.Num), nil)
 		}
@@ -220,6 +248,15 @@ func replay(in input) map[string]any {
 	// end of behaviour: release everything, then nothing of the library may remain
 	w.g.Disarm("op")
 	w.g.Disarm(window)
+	if deadManual >= 0 {
+		if _, err := rt.Quiesce(); err != nil {
+			return map[string]any{"n": in.N, "ok": true, "inconclusive": "no quiescence at end"}
+		}
+		if n := w.wg.Num(); n != deadManual {
+			return fail(in, len(in.Beh), "waitgroup/launch-on-dead-context/counter", fmt.Sprintf(
+				"after every launched operation returned Num()=%d, the client-added part is %d", n, deadManual), nil)
+		}
+	}
 	for _, c := range w.cancel {
 		c()
 	}
